@@ -150,6 +150,7 @@ type Cmd struct {
 	Name        string
 	Aliases     []string
 	SubOptional bool
+	SubOptText  string // spelling of the subcommands-optional tag ("" = "true")
 	Hidden      bool
 	Desc        string
 	LongDesc    string
@@ -341,7 +342,12 @@ func (c *Cmd) Tag() string {
 		tagKV(&sb, "alias", a)
 	}
 	if c.SubOptional {
-		tagKV(&sb, "subcommands-optional", "true")
+		// (the mere presence of the tag makes sub-commands optional, whatever its text)
+		v := c.SubOptText
+		if v == "" {
+			v = "true"
+		}
+		tagKV(&sb, "subcommands-optional", v)
 	}
 	if c.Hidden {
 		tagKV(&sb, "hidden", "true")
